@@ -12,6 +12,7 @@ ASSUME \A a, b \in Grid :
         /\ RAdd(a, b) = D!RAdd(a, b)
         /\ RSub(a, b) = D!RSub(a, b)
         /\ RMul(a, b) = D!RMul(a, b)
+        /\ REq(a, b) = D!REq(a, b)
         /\ RLt(a, b) = D!RLt(a, b)
         /\ RLe(a, b) = D!RLe(a, b)
         /\ RMin(a, b) = D!RMin(a, b)
@@ -34,6 +35,7 @@ ASSUME RRoundCents(RDec(1494, 3)) = RDec(149, 2) /\ RRoundCents(RDec(5, 3)) = RD
 \* big values survive (override only): 10^30 / 10^29 = 10, and ordering across the int/string boundary
 ASSUME RDiv(RDec("1000000000000000000000000000000", 0), RDec("100000000000000000000000000000", 0)) = RN(10)
 ASSUME RLt(RN(2147483647), RAdd(RN(2147483647), ROne))
+ASSUME ~REq(RN(5), RDec("1000000000000000000000000000000", 0)) /\ REq(RDec("50000000000000000000000", 22), RN(5))
 ASSUME RSub(RAdd(RN(2147483647), ROne), ROne) = RN(2147483647)
 ASSUME RClose(RDec("79228162514264337593543950335", 28), RDec("79228162514264337593543950334", 28), Eps9)
 Init == x = 0
